@@ -902,7 +902,21 @@ def throws_are_caught(run, handler, callees, rule='R4', instance='thrown-type-ca
                               % (g.norm, ty, handler.norm, ', '.join(c or '...' for c in caught) or 'none'))
             else:
                 run.unrecognised(rule, instance, '%s: throw %s' % (g.norm, ty), g.loc(t), 'thrown type %s is not in the tabled exception hierarchy' % ty)
+        # standard conversions whose failure depends on the TEXT they are given throw too (tabled): the text comes from the peer
+        for c in g.calls():
+            nm = (q.callee_name(c) or '').split('<')[0]
+            if nm in STD_THROWING_CALLS:
+                for ty in STD_THROWING_CALLS[nm]:
+                    n += 1
+                    ok = any(cc is None or _exc_derives(ty, cc) for cc in caught)
+                    run.check(ok, rule, instance, '%s: %s throws %s' % (g.norm, nm, ty), g.loc(c),
+                              '%s calls %s, which throws %s for text it cannot convert, and none of the catch clauses of %s (%s) accepts that type: a malformed value sent by a client (e.g. "Range: bytes=first-last") throws out of the handler and of simulation::run() instead of closing this one connection, and the next client is never accepted'
+                              % (g.norm, nm, ty, handler.norm, ', '.join(cc or '...' for cc in caught) or 'none'), 'accepted by a catch clause of %s' % handler.norm)
     return n
+
+
+STD_THROWING_CALLS = {k: ['std::invalid_argument', 'std::out_of_range'] for k in
+                      ('std::stoi', 'std::stol', 'std::stoll', 'std::stoul', 'std::stoull', 'std::stof', 'std::stod', 'std::stold')}
 
 
 SORTED_ALGOS = ('std::binary_search', 'std::lower_bound', 'std::upper_bound', 'std::equal_range', 'std::merge', 'std::includes',
@@ -1334,4 +1348,130 @@ def address_casts_guarded(run, fns, rule='R4', inst='address-cast-guarded'):
             run.check(ok, rule, inst, '%s: %s.%s()' % (g.norm, obj[:40], nm.split('::')[-1]), g.loc(c),
                       '%s.%s() is evaluated without a dominating test of the address family: for an address of the other family it throws bad_address_cast, which nothing catches - the exception leaves simulation::run() and ends the simulation for every connection (e.g. a datagram with an IPv6 source reaching an IPv4 relay socket)' % (obj, nm.split('::')[-1]),
                       'dominated by %s() on the same address' % want)
+    return n
+
+
+# ---------------------------------------------------------------------------------------------------------------------
+# a copy out of a container reads only what the container holds
+def copies_within_source(run, fns, rule='R9', inst='copy-within-source'):
+    """memcpy(dst, X.data() + off, n): n is bounded by what is left of X behind the offset.  The bound has to be visible in
+    the length itself: n is X.size() - off, or min(..) with such an operand (through single-definition locals).  A copy
+    whose length is bounded by the WHOLE size while the source has been advanced reads past the end of the datagram -
+    heap slack ends up in the user's buffer and in the byte count.  Returns the number of copies judged."""
+    n = 0
+    for g in fns:
+        if g.cfg is None:
+            continue
+        subst = {}
+        mutated = set()          # locals changed by a compound assignment or ++/-- are not constants
+        for nd in g.all_nodes():
+            tgt = None
+            if nd['k'] == 'bin' and nd['op'] not in ('=',) and nd['op'].endswith('=') and nd['op'] not in ('==', '!=', '<=', '>='):
+                tgt = nd['lhs']
+            elif nd['k'] == 'un' and nd.get('op') in ('++', '--', 'pre++', 'pre--', 'post++', 'post--', '++pre', '++post', '--pre', '--post'):
+                tgt = nd['e']
+            elif nd['k'] == 'call' and nd.get('opc') in ('+=', '-=', '*=', '/=', '++', '--') and nd.get('args'):
+                tgt = nd['args'][0]
+            t_ = q.strip_casts(tgt) if tgt is not None else None
+            if is_node(t_) and t_['k'] == 'ref' and t_.get('dk') == 'local':
+                mutated.add(t_['did'])
+        for nd in g.all_nodes():
+            if nd['k'] == 'decl':
+                for v in nd['vars']:
+                    if v.get('init') is not None and len(q.local_defs(g, v['did'])) == 1 and v['did'] not in mutated:
+                        subst[v['did']] = v['init']
+        for c in g.calls():
+            if q.callee_name(c) not in ('memcpy', 'std::memcpy', 'memmove', 'std::memmove') or len(c.get('args', [])) != 3:
+                continue
+            src = q.linform(g, c['args'][1], subst=subst)
+            if not src:
+                continue
+            datas = [s_ for s_, v_ in src[0].items() if s_.endswith('.data()') and v_ == 1]
+            if len(datas) != 1:
+                continue
+            X = datas[0][:-len('.data()')]
+            off = ({s_: v_ for s_, v_ in src[0].items() if s_ != datas[0]}, src[1])
+            n += 1
+            run.touch(g)
+            want = ({X + '.size()': 1}, 0)
+            def remaining(e, depth=0):
+                """does e equal X.size() - off?"""
+                lf = q.linform(g, e, subst=subst)
+                if lf is None:
+                    return False
+                tot = ({k: lf[0].get(k, 0) + off[0].get(k, 0) for k in set(lf[0]) | set(off[0])}, lf[1] + off[1])
+                tot = ({k: v for k, v in tot[0].items() if v != 0}, tot[1])
+                return tot == want
+            def bounded(e, depth=0):
+                e0 = q.strip_casts(e)
+                while is_node(e0) and e0['k'] == 'construct' and len(e0.get('args', [])) == 1:
+                    e0 = q.strip_casts(e0['args'][0])
+                if not is_node(e0) or depth > 4:
+                    return False
+                if remaining(e0):
+                    return True
+                if e0['k'] == 'ref' and e0.get('dk') == 'local' and e0.get('did') in subst:
+                    return bounded(subst[e0['did']], depth + 1)
+                mm = _minmax(g, e0)
+                if mm and mm[0] == 'min':
+                    return bounded(mm[1], depth + 1) or bounded(mm[2], depth + 1)
+                return False
+            run.check(bounded(c['args'][2]), rule, inst, '%s: %s' % (g.norm, q.render(g, c)[:70]), g.loc(c),
+                      'the copy reads %s bytes starting %s into %s, and nothing in that length bounds it by what is left of %s behind that offset (%s.size() minus the offset): with the source advanced, a length bounded by the whole size runs past the end of the buffer - bytes of whatever the allocator left there reach the caller, and the byte count with them'
+                      % (q.render(g, c['args'][2]), ('%s bytes' % q.render_lin(off) if hasattr(q, 'render_lin') else 'at an offset') if (off[0] or off[1]) else 'at its start', X, X, X),
+                      'length bounded by %s.size() - offset' % X)
+    return n
+
+
+# ---------------------------------------------------------------------------------------------------------------------
+# no dereference of a moved-from smart pointer
+def use_after_move(run, fns, rule='R1', inst='no-deref-after-move'):
+    """After std::move(x) has been consumed (initialising or assigned to another object, or passed on by value), x - and
+    every smart-pointer member of x - is empty.  A later `x->...` / `x.ptr->...` on a path from the move, with no
+    re-assignment of x in between, dereferences a null pointer.  Only dereferences of std::shared_ptr / unique_ptr /
+    function-like owners are judged (reading an int of a moved-from aggregate is harmless).  Returns the number of move
+    sites examined."""
+    n = 0
+    OWNERS = ('shared_ptr', 'unique_ptr', 'weak_ptr')
+    for g in fns:
+        if g.cfg is None:
+            continue
+        moves = [c for c in g.calls() if q.callee_name(c) == 'std::move' and c.get('args')]
+        if not moves:
+            continue
+        derefs = [m for m in g.all_nodes() if m['k'] == 'member' and m.get('arrow') and is_node(m.get('base')) and 't' in q.strip_casts(m['base']) and any(o in g.ty(q.strip_casts(m['base'])['t']) for o in OWNERS)]
+        derefs += [m for m in g.all_nodes() if m['k'] == 'call' and m.get('opc') in ('->', '*') and m.get('args') and 't' in q.strip_casts(m['args'][0]) and any(o in g.ty(q.strip_casts(m['args'][0])['t']) for o in OWNERS)]
+        for mv in moves:
+            a = q.strip_casts(mv['args'][0])
+            ra = q.render(g, a).replace('this->', '')
+            par = g.parent(mv)
+            consumed = is_node(par) and (par['k'] in ('construct', 'decl') or (par['k'] == 'call') or (par['k'] == 'bin' and par['op'] == '='))
+            if not consumed:
+                continue
+            n += 1
+            pm = g.cfg.node_pos(mv)
+            if pm is None:
+                continue
+            for d in derefs:
+                base = q.strip_casts(d['base'] if d['k'] == 'member' else d['args'][0])
+                rb = q.render(g, base).replace('this->', '')
+                if not (rb == ra or rb.startswith(ra + '.') or rb.startswith(ra + '->')):
+                    continue
+                pd = g.cfg.node_pos(d)
+                if pd is None:
+                    continue
+                after = (pd[0] == pm[0] and pd[1] > pm[1]) or (pd[0] != pm[0] and g.cfg._reaches(pm[0], pd[0]))
+                if not after:
+                    continue
+                # same full expression (argument list of one call) is unsequenced territory - not judged here
+                if any(x is d for x in walk(g.parent(mv) or {})):
+                    continue
+                # re-assigned in between?
+                reas = [x for x in g.all_nodes() if ((x['k'] == 'bin' and x['op'] == '=' and q.render(g, q.strip_casts(x['lhs'])).replace('this->', '') in (ra, rb)) or
+                                                      (x['k'] == 'call' and x.get('opc') == '=' and x.get('args') and q.render(g, q.strip_casts(x['args'][0])).replace('this->', '') in (ra, rb)))]
+                if any(q.precedes(g, r_, d) and not q.precedes(g, r_, mv) for r_ in reas):
+                    continue
+                run.violation(rule, inst, '%s: %s after std::move(%s)' % (g.norm, q.render(g, d)[:40], ra), g.loc(d),
+                              '%s is dereferenced at line %s after std::move(%s) at line %s gave its contents away: the pointer is null there - a crash (or, under a sanitizer, "member access within null pointer") on the path that reaches it'
+                              % (rb, d.get('l'), ra, mv.get('l')))
     return n
